@@ -4,6 +4,7 @@ mod common;
 mod driver;
 mod e1;
 mod e2;
+mod e3;
 mod gen_;
 mod rt;
 mod specs;
